@@ -96,6 +96,7 @@ def step (st : St) : List String → St × String
   | ["sync"] => ({ db := syncBalances st.db addrs }, "ok")
   | "ptx" :: rest => (st, Haqq.Driver.Script.step rest)
   | "dtx" :: _ => (st, "skip")
+  | "psup" :: _ => (st, "skip")
   | ["noop"] => (st, "ok")
   | ["dump"] => ({ db := loadAll st.db }, dump st.db)
   | _ => (st, "bad-op")
